@@ -169,6 +169,13 @@ def run(ctx: Ctx) -> None:
         a = r.auto(lm.reflags)
         ctx.ob("R6.5", f"lexer:PlyLexer.{r.name}|not nullable", not a.nullable, msg=f"{r.name} matches the empty string", node=r.node, mod=lex, nontrivial=False)
 
+    # ---------------------------------------------------------------- R6.6
+    # "... a line number that exists in the input (or is set by a #line directive)": the
+    # re-basing arithmetic of the '#line' branch is what makes the reported number the
+    # directive's; the rule is C10's R10.3, evaluated here under this property's id.
+    from . import c10
+    from ..report import SubCtx
+    c10.run(SubCtx(ctx, {"R10.3": ("R6.6", "#line re-basing: line_offset = physical lineno - N + 1, file name from the same match (so an error after a #line directive names the directive's file and line)")}))  # type: ignore[arg-type]
 
 def _bracket_mismatch(ctx: Ctx, pm: ParserModel) -> None:
     fname = "_consume_balanced_tokens"
